@@ -23,6 +23,18 @@ type genOpts struct {
 	perturb  []string // forced perturbations (nil = random)
 	reform   int      // -1 random, 0 no, 1 yes
 	label    string
+	nearReq  bool // required signers differ from a witnessed key hash in one bit
+}
+
+// nearMiss flips one bit of the first or the last byte of a hash.
+func nearMiss(r *vh.Rng, h []byte) []byte {
+	o := append([]byte{}, h...)
+	if r.Bool() {
+		o[len(o)-1] ^= 1 << uint(r.Intn(8))
+	} else {
+		o[0] ^= 1 << uint(r.Intn(8))
+	}
+	return o
 }
 
 var inputKinds = []string{"key", "key", "key", "key", "key", "key", "key", "key", "key", "key",
@@ -61,9 +73,13 @@ func genWith(r *vh.Rng, e *eraT, o genOpts) txCase {
 		ref := inRef{r.Bytes(32), uint32(r.Intn(4))}
 		ent := utxoEnt{TxId: vh.Hex(ref.TxId), Idx: ref.Idx, Kind: "addr"}
 		switch kind {
-		case "key":
+		case "key", "keynear":
 			k := keys[r.Intn(4)] // keys[4] never owns anything
-			ent.Addr = vh.Hex(addrKey(r, k.hash))
+			h := k.hash
+			if kind == "keynear" || r.Chance(1, 14) {
+				h = nearMiss(r, h) // the witness of k is supplied, but k is not the owner
+			}
+			ent.Addr = vh.Hex(addrKey(r, h))
 			needs = append(needs, needT{key: k})
 		case "byron":
 			k := keys[r.Intn(4)]
@@ -124,8 +140,12 @@ func genWith(r *vh.Rng, e *eraT, o genOpts) txCase {
 			}
 		}
 		for i := 0; i < n; i++ {
-			if r.Chance(1, 12) {
+			if o.nReq < 0 && r.Chance(1, 12) {
 				p.reqSigners = append(p.reqSigners, r.Bytes(28)) // nobody's key
+			} else if o.nearReq || (o.nReq < 0 && r.Chance(1, 10)) {
+				k := keys[r.Intn(4)]
+				p.reqSigners = append(p.reqSigners, nearMiss(r, k.hash))
+				needs = append(needs, needT{key: k})
 			} else {
 				k := keys[(r.Intn(4)+i)%4]
 				if i > 0 && string(p.reqSigners[0]) == string(k.hash) {
@@ -155,7 +175,11 @@ func genWith(r *vh.Rng, e *eraT, o genOpts) txCase {
 				p.wdrls = append(p.wdrls, rewardAddrScript(r, r.Bytes(28)))
 			} else {
 				k := keys[r.Intn(4)]
-				p.wdrls = append(p.wdrls, rewardAddrKey(r, k.hash))
+				h := k.hash
+				if r.Chance(1, 10) {
+					h = nearMiss(r, h)
+				}
+				p.wdrls = append(p.wdrls, rewardAddrKey(r, h))
 				needs = append(needs, needT{key: k})
 			}
 		}
@@ -431,6 +455,9 @@ func corpus(r *vh.Rng) []txCase {
 		{"collateral nil output", genOpts{kinds: []string{"key"}, collKind: []string{"niloutput"}, perturb: []string{}}, true},
 		{"collateral valid", genOpts{kinds: []string{"script"}, collKind: []string{"key", "key"}, perturb: []string{}}, true},
 		{"required signer unwitnessed", genOpts{kinds: []string{"script"}, nReq: 2, perturb: []string{"drop-vkey"}}, true},
+		{"required signer one bit off a witnessed key", genOpts{kinds: []string{"key"}, nReq: 1, nearReq: true, perturb: []string{}}, true},
+		{"input owner one bit off a witnessed key", genOpts{kinds: []string{"keynear", "key"}, perturb: []string{}}, false},
+		{"collateral owner one bit off a witnessed key", genOpts{kinds: []string{"key"}, collKind: []string{"keynear"}, perturb: []string{}}, true},
 		{"required signer witnessed", genOpts{kinds: []string{"key"}, nReq: 2, perturb: []string{}}, true},
 	}
 	for _, e := range eras {
